@@ -30,6 +30,8 @@ LEVEL_TEXT += ' Added clause: a name binds the value of its own expression in ge
 TECHNIQUE += '; frames of the generated-only context managers (= C05.R3)'
 TECHNIQUE += '; exhaustive interpretation of regexpp over the quoting alphabet (every valid regex over {backslash, \', ", a} <= 5/6 and with LF <= 4/5): returns, and the literal parses to the same regex tree'
 LEVEL_TEXT += " Added clause: a pattern literal never fails to be written and means the model's pattern (two verbose-mode inputs are known findings)."
+TECHNIQUE += '; declaration of defined names: the argument pairs of the model (_add_defined) and of the emitted ctx.define(...) through the real AST._define give the same defaults'
+LEVEL_TEXT += ' Added clause: a list name that receives nothing is [] on both back-ends.'
 LEVEL_NOTE = ('Trusted: repr() escapes every non-printable character; str.splitlines() breaks at \\n \\r \\v \\f \\x1c \\x1d \\x1e \\x85 '
               '\\u2028 \\u2029; str.expandtabs() rewrites TAB.')
 EXPLANATION = ('Static analysis of /repo sources, TatSu not imported. walk_* methods of PythonParserGenerator and _parse methods '
